@@ -601,8 +601,9 @@ pub mod verif_hooks {
         }
     }
 
-    /// `MaxBuilder::update` for every glyph (glyph id = index), then `update_composite_limits`.
-    pub fn limits(glyphs: &[HookGlyph]) -> HookLimits {
+    /// `MaxBuilder::update` for every glyph (glyph id = index), then `update_composite_limits`;
+    /// `Err` carries the diagnostic of the build error.
+    pub fn limits(glyphs: &[HookGlyph]) -> Result<HookLimits, String> {
         let mut builder = MaxBuilder::default();
         for (i, g) in glyphs.iter().enumerate() {
             let glyph = Glyph {
@@ -611,8 +612,10 @@ pub mod verif_hooks {
             };
             builder.update(GlyphId16::new(i as u16), &glyph);
         }
-        let composite = builder.update_composite_limits();
-        HookLimits {
+        let composite = builder
+            .update_composite_limits()
+            .map_err(|e| e.to_string())?;
+        Ok(HookLimits {
             max_points: builder.max_points,
             max_contours: builder.max_contours,
             max_component_elements: builder.max_component_elements,
@@ -620,6 +623,6 @@ pub mod verif_hooks {
             max_composite_contours: composite.max_contours,
             max_component_depth: composite.max_depth,
             bbox: builder.bbox.map(|b| [b.x_min, b.y_min, b.x_max, b.y_max]),
-        }
+        })
     }
 }
